@@ -480,4 +480,50 @@ example :
                .run 1 5, .run 1 0, .run 1 0, .run 1 0, .run 1 0] : List Cmd).foldl (applyCmdP ltProgs) init
     retOf s 0 = some (.id 5) ∧ retOf s 1 = some (.id 5) := by decide
 
+/-! ### judge clauses as model theorems: floor monotone over any run; the sequential acceptors -/
+
+/-- the judge clause `viol:floor-decreased`, lifted to ANY sequence of transitions: the shared floor
+    never decreases -/
+theorem c30_floor_monotone {s s' : GState} (h : Reach s) (hs : Steps s s') : s.floor ≤ s'.floor := by
+  induction hs with
+  | refl => exact Nat.le_refl _
+  | tail h12 st ih => exact Nat.le_trans ih (c30_later_cas_above (reach_steps h h12) st).1
+
+example : init.floor ≤ demoState.floor := c30_floor_monotone Reach.init (steps_run demo)
+
+/-- the sequential acceptor the driver runs for `next`: the generated Next program, alone on a floor
+    `F`, fed the single generator value `id`, returns exactly when `id > F`, returns that id and
+    leaves the floor at it; otherwise (`id ≤ F`) it asks the generator again (acceptor: `none`). -/
+theorem c30_seq_next (F v : Nat) (s : GState) :
+    runSeq nextProg 64 F (spawnThread .next 0 s) [v] =
+      if F < v then some (.id v, v) else none := by
+  rw [next_prog]
+  by_cases h : F < v
+  · have h1 : ¬ v ≤ F := by omega
+    simp [runSeq, exec, spawnThread, Thread.wr, Thread.rd, evalCmp, h, h1, haltPC]
+  · have h1 : v ≤ F := by omega
+    simp [runSeq, exec, spawnThread, Thread.wr, Thread.rd, evalCmp, h, h1, haltPC]
+
+
+/-- the sequential acceptor the driver runs for `floor …`: the generated SetFloor program alone on
+    floor `F` with parameter `f` and probe `p`: nil without touching the floor when `f ≤ F`; an error
+    (floor untouched) when the probe is not above `f`; otherwise the floor becomes the probe. -/
+theorem c30_seq_setFloor (F f p : Nat) (s : GState) :
+    runSeq setFloorProg 64 F (spawnThread .setFloor f s) [p] =
+      if f ≤ F then some (.ok, F) else if p ≤ f then some (.err, F) else some (.ok, p) := by
+  rw [setFloor_prog]
+  by_cases h : f ≤ F
+  · simp [runSeq, exec, spawnThread, Thread.wr, Thread.rd, evalCmp, h, haltPC]
+  · by_cases h2 : p ≤ f
+    · simp [runSeq, exec, spawnThread, Thread.wr, Thread.rd, evalCmp, h, h2, haltPC]
+    · have h3 : ¬ p ≤ F := by omega
+      simp [runSeq, exec, spawnThread, Thread.wr, Thread.rd, evalCmp, h, h2, h3, haltPC]
+
+-- both branches of each acceptor occur
+example : runSeq nextProg 64 5 (spawnThread .next 0 init) [9] = some (.id 9, 9) := by rw [c30_seq_next]; rfl
+example : runSeq nextProg 64 5 (spawnThread .next 0 init) [5] = none := by rw [c30_seq_next]; rfl
+example : runSeq setFloorProg 64 5 (spawnThread .setFloor 7 init) [8] = some (.ok, 8) := by rw [c30_seq_setFloor]; rfl
+example : runSeq setFloorProg 64 5 (spawnThread .setFloor 7 init) [7] = some (.err, 5) := by rw [c30_seq_setFloor]; rfl
+example : runSeq setFloorProg 64 5 (spawnThread .setFloor 3 init) [0] = some (.ok, 5) := by rw [c30_seq_setFloor]; rfl
+
 end WK.C30
